@@ -56,6 +56,10 @@ def build_file(g, d, n=160):
     with fits.open(path) as h:
         cols = h['EVENTS'].data.columns + fits.ColDefs([fits.Column(name='PHASE', array=phase, format='E')])
         h['EVENTS'] = fits.BinTableHDU.from_columns(cols, header=h['EVENTS'].header)
+        # a few events recorded the very microsecond the detector came back to life: LIVETIME = 0 (legal; about rate × 1e-6 of the events of a real file)
+        lt = numpy.array(h['EVENTS'].data['LIVETIME'])
+        lt[g.choice(n, 6, replace=False)] = 0
+        h['EVENTS'].data['LIVETIME'] = lt
         h.writeto(path, overwrite=True)
     if SHUFFLE[0]:
         # a file whose rows are not in time order (segments merged in another order, rows sorted by another column): the predicate is per row
@@ -137,6 +141,8 @@ def gen_cfg(g, rows, malformed=False):
         kw['tinvert'] = True          # invert flag without bounds: ignored by the code
     elif g.uniform() < 0.6:
         kw['mask'] = 'MASK'           # direct selection with a boolean array
+    if first in ('time', 'phase') and g.uniform() < 0.35:
+        kw['ltimeupdate'] = True          # the keyword update must not touch the rows
     if g.uniform() < 0.6:
         mcflag = g.uniform() < 0.3
         pool = numpy.unique(rows['mce'] if mcflag else E)
@@ -325,12 +331,14 @@ def ref_mask(rows, kw):
     if kw.get('rad') is not None or kw.get('innerrad') is not None:
         s, ms = seps(rows, kw)
         x = ms if kw.get('mc') else s
+        # the true positions are single-precision columns and the package computes their separation in single precision (~1e-4 arcmin)
+        eps = 5e-4 if kw.get('mc') else 1e-6
         if kw.get('rad') is not None:
             m &= x <= kw['rad']
-            care &= numpy.abs(x - kw['rad']) > 1e-6
+            care &= numpy.abs(x - kw['rad']) > eps
         if kw.get('innerrad') is not None:
             m &= x >= kw['innerrad']
-            care &= (numpy.abs(x - kw['innerrad']) > 1e-6) | (kw['innerrad'] == 0.)
+            care &= (numpy.abs(x - kw['innerrad']) > eps) | (kw['innerrad'] == 0.)
     if kw.get('regfile'):
         # the region of the synthetic file is a 55" circle: membership computed independently from the (measured or true) sky position;
         # rows within 0.6" of the edge are "don't care" (the regions library works in pixel space)
@@ -344,6 +352,7 @@ def ref_mask(rows, kw):
 
 
 def near_boundary(rows, kw, eps=1e-7):
+    eps = 5e-4 if kw.get('mc') else eps
     """a cone radius within eps of some row's separation: float noise of the independent separation, skip exactness"""
     s, ms = seps(rows, kw)
     x = ms if kw.get('mc') else s
